@@ -146,6 +146,9 @@ std::map<std::string, ShapeGeo> captureAll(NifFile& n, bool& dupNames) {
 	return m;
 }
 
+// oriented triangles a shape is known to consist of from an independent source (the triangle list it had before it was rewritten as strips)
+static std::map<std::string, std::multiset<std::tuple<int, int, int>>> g_truthTris;
+
 void convertCheck(const std::string& bytes, const std::string& src, uint64_t seed, int optVariant) {
 	Rng rng(seed);
 	NifFile ref;
@@ -157,6 +160,18 @@ void convertCheck(const std::string& bytes, const std::string& src, uint64_t see
 	bool dup0 = false;
 	auto refGeo = captureAll(ref, dup0);
 	if (refGeo.empty()) return;
+	for (auto& kv : g_truthTris) {
+		auto it = refGeo.find(kv.first);
+		if (it == refGeo.end()) continue;
+		if (it->second.tris != kv.second) {
+			std::string d;
+			for (auto& t : kv.second) if (!it->second.tris.count(t)) { d += fmt(" missing (%d,%d,%d)", std::get<0>(t), std::get<1>(t), std::get<2>(t)); break; }
+			for (auto& t : it->second.tris) if (!kv.second.count(t)) { d += fmt(" extra (%d,%d,%d)", std::get<0>(t), std::get<1>(t), std::get<2>(t)); break; }
+			R_viol("conversion", "strips-decoding", src + " shape '" + kv.first + fmt("': the triangles read from the NiTriStrips shape (%zu) are not the oriented triangles its strips encode (%zu);", it->second.tris.size(), kv.second.size()) + d);
+			return;
+		}
+		it->second.tris = kv.second;
+	}
 	OptOptions o;
 	o.targetVersion = fromLE ? NiVersion::getSSE() : NiVersion::getSK();
 	o.removeParallax = optVariant & 1;
@@ -318,6 +333,29 @@ void run(size_t idx) {
 				m.bytes = saveNif(cp, false);
 				m.desc += " [partition vertex maps permuted]";
 				R_stat("models_with_permuted_partition_vertex_maps");
+			}
+		}
+		g_truthTris.clear();
+		if (idx % 8 == 4 && idx % 6 != 2 && idx % 7 != 0) {   // (not together with the duplicated faces or the name clash above: the truth is kept per shape name)
+			// SK: geometry stored as triangle strips that encode the same oriented triangles (some with a leading degenerate)
+			bool any = false;
+			for (auto s : m.nif->GetShapes()) {
+				if (!s->HasType<NiTriShape>() || s->HasType<NiTriStrips>()) continue;
+				std::vector<Triangle> t;
+				s->GetTriangles(t);
+				if (t.empty()) continue;
+				std::string name = s->name.get();
+				if (toStripsSameTriangles(*m.nif, s, rng)) {
+					auto& ts = g_truthTris[name];
+					for (auto x : t) { x = normTri(x); ts.insert({x.p1, x.p2, x.p3}); }
+					any = true;
+				}
+			}
+			if (any) {
+				NifFile cp(*m.nif);
+				m.bytes = saveNif(cp, false);
+				m.desc += " [geometry as strips]";
+				R_stat("models_with_strip_geometry");
 			}
 		}
 		if (idx % 9 == 4) {   // all-white vertex colours
